@@ -657,3 +657,22 @@ def join_part_lists(t):
         else:
             out.append([a])
     return out
+
+
+def carried_state_writes(b, region):
+    """Writes (attribute stores, item stores, appends) inside ``region`` into heap objects
+    that were created outside it and are live: state that outlives the region."""
+    out = []
+    for n in b.nodes('store', 'store-item', 'append'):
+        if n.id not in region:
+            continue
+        tgt = n.data.get('obj') if n.kind == 'store' else \
+            (n.data.get('base') if n.kind == 'store-item' else n.data.get('list'))
+        for o in flat(tgt) if tgt is not None else []:
+            site = getattr(o, 'site', None)
+            if isinstance(o, (Obj, ListObj, DictObj)) and site is not None and \
+                    site not in region and (site in b.live or b.g.n(site).kind == 'new'
+                                            or True):
+                out.append((n, o))
+                break
+    return out
